@@ -335,4 +335,48 @@ pub fn e2e_out_apply<const N: usize>() {
     kani::cover!(steady && w > 1, "an element leaves a window longer than one");
 }
 
+/// `ts_vsum` written into a caller-supplied NON-CONTIGUOUS ndarray buffer (every second slot of a larger array): the view's
+/// elements equal the returned Vec and the slots in between are untouched (added after seeded change C07-m1).
+pub fn e2e_out_tsvsum_nd_strided<const N: usize, const M: usize>() {
+    let x = any_opt_small::<N>();
+    let (w, mp) = any_params::<N>();
+    let v: Vec<Option<i32>> = x.to_vec();
+    let r0: Vec<f64> = v.ts_vsum(w, mp);
+    assert!(r0.len() == N, "returned Vec has the input length");
+    let mut big: Array1<MaybeUninit<f64>> = Array1::from_elem(M, MaybeUninit::new(-12345.0));
+    {
+        let view = big.slice_mut(s![..;2]);
+        let none = v.ts_vsum_to::<Array1<f64>, f64>(w, mp, Some(view));
+        assert!(none.is_none(), "nothing is returned when the result goes to the caller's strided buffer");
+    }
+    let mut val = false;
+    let mut i = 0;
+    while i < N {
+        let got = unsafe { big[2 * i].assume_init() };
+        assert!(same_f64(got, r0[i]), "strided Array1 buffer written via _to equals returned Vec");
+        if 2 * i + 1 < M {
+            let gap = unsafe { big[2 * i + 1].assume_init() };
+            assert!(gap == -12345.0, "slots between the elements of the strided buffer are untouched");
+        }
+        val |= r0[i] == r0[i];
+        i += 1;
+    }
+    kani::cover!(val && w < N, "a non-null sum with a window shorter than the series");
+}
+
+#[kani::proof]
+#[kani::stub(std::fmt::format, crate::util::fmt_stub)]
+#[kani::unwind(10)]
+pub fn c07_e2e_out_tsvsum_nd_strided_n2() {
+    e2e_out_tsvsum_nd_strided::<2, 4>();
+}
+
+#[cfg(feature = "thorough")]
+#[kani::proof]
+#[kani::stub(std::fmt::format, crate::util::fmt_stub)]
+#[kani::unwind(10)]
+pub fn c07_e2e_out_tsvsum_nd_strided_n3() {
+    e2e_out_tsvsum_nd_strided::<3, 6>();
+}
+
 include!("c07_gen.rs");
